@@ -116,7 +116,12 @@ impl TxtppPath for PathBuf {
                 Report::new(PathError::from(self))
                     .attach_printable(format!("path does not have {TXTPP_EXT} extension"))
             })?;
-            p.set_extension(self_ext);
+            // append the extension to the stem: the stem itself may contain dots
+            // (`a.b.txtpp.c` -> `a.b.c`), so `set_extension` would replace its last component
+            let mut file_name = p.file_name().unwrap_or_default().to_os_string();
+            file_name.push(".");
+            file_name.push(self_ext);
+            p.set_file_name(file_name);
         }
 
         Ok(p)
